@@ -271,8 +271,8 @@ func printDoc(d *ast.QueryDocument) string {
 	return string(bytes.Join(bytes.Fields(b.Bytes()), []byte(" ")))
 }
 
-var DecorKinds = []string{"alias", "aliasSib", "aliasParent", "aliasId", "idAliased", "typename", "fragT", "fragN", "fragAbs", "id",
-	"incLit", "skipLitFalse", "skipVar", "incVar", "argVar", "argVarNamedId", "argVarDefault", "argVarNull", "varTwice", "dup", "dupFirst", "sameKeyTwice", "splitKey", "splitKeyFrag", "named", "namedTwice", "opName"}
+var DecorKinds = []string{"alias", "aliasSib", "aliasParent", "aliasId", "idAliased", "typename", "fragT", "fragN", "fragAbs", "fragAbsTypename", "absTypenameFrag", "id",
+	"incLit", "skipLitFalse", "skipVar", "incVar", "argVar", "argVarNamedId", "argVarDefault", "argVarNull", "varTwice", "dup", "dupFirst", "sameKeyTwice", "splitKey", "splitKeyFrag", "dupSwapLeaf", "dupDropLeaf", "named", "namedTwice", "opName"}
 
 // Decorate returns all single-decoration variants of q.
 func Decorate(s *ast.Schema, q string) []Case {
@@ -361,8 +361,15 @@ func Decorate(s *ast.Schema, q string) []Case {
 				} else {
 					f.SelectionSet = ast.SelectionSet{&ast.InlineFragment{SelectionSet: f.SelectionSet}}
 				}
-			case "fragAbs":
-				// wrap in a fragment on an interface the type implements
+			case "absTypenameFrag":
+				// next to the client's own selections a fragment on an interface of the type that selects __typename only
+				if !hasSel || ft.Kind != ast.Object || len(ft.Interfaces) == 0 {
+					ok = false
+				} else {
+					f.SelectionSet = append(f.SelectionSet, &ast.InlineFragment{TypeCondition: ft.Interfaces[0], SelectionSet: ast.SelectionSet{&ast.Field{Name: "__typename", Alias: "__typename"}}})
+				}
+			case "fragAbs", "fragAbsTypename":
+				// wrap in a fragment on an interface the type implements (second kind: the client also selects __typename next to it)
 				if !hasSel || ft.Kind != ast.Object || len(ft.Interfaces) == 0 {
 					ok = false
 				} else {
@@ -383,6 +390,9 @@ func Decorate(s *ast.Schema, q string) []Case {
 							}
 						}
 						f.SelectionSet = append(ast.SelectionSet{&ast.InlineFragment{TypeCondition: idef.Name, SelectionSet: keep}}, rest...)
+						if k == "fragAbsTypename" {
+							f.SelectionSet = append(ast.SelectionSet{&ast.Field{Name: "__typename", Alias: "__typename"}}, f.SelectionSet...)
+						}
 					}
 				}
 			case "id":
@@ -469,6 +479,21 @@ func Decorate(s *ast.Schema, q string) []Case {
 					ok = appendSibling(&op.SelectionSet, f, func(c *ast.Field) { c.SelectionSet = append(ast.SelectionSet{}, all[h:]...) })
 					wrapNext = false
 				}
+			case "dupSwapLeaf", "dupDropLeaf":
+				// an aliased copy that differs from the original in its last leaf only (id <-> another
+				// scalar, or the leaf dropped): two places that fetch the same entities with partly the
+				// same sub-requests but are owed different keys
+				if !hasSel || ft == nil {
+					ok = false
+					break
+				}
+				cp := deepCopyField(f)
+				cp.Alias = "b"
+				if !mutateLastLeaf(s, ft, &cp.SelectionSet, k == "dupDropLeaf") {
+					ok = false
+					break
+				}
+				ok = appendSibling(&op.SelectionSet, f, func(c *ast.Field) { *c = *cp })
 			case "named", "namedTwice":
 				if !hasSel || ft.Kind != ast.Object {
 					ok = false
@@ -490,6 +515,86 @@ func Decorate(s *ast.Schema, q string) []Case {
 		}
 	}
 	return out
+}
+
+func deepCopyField(f *ast.Field) *ast.Field {
+	c := *f
+	c.SelectionSet = nil
+	for _, x := range f.SelectionSet {
+		switch x := x.(type) {
+		case *ast.Field:
+			c.SelectionSet = append(c.SelectionSet, deepCopyField(x))
+		case *ast.InlineFragment:
+			fr := *x
+			fr.SelectionSet = deepCopyField(&ast.Field{SelectionSet: x.SelectionSet}).SelectionSet
+			c.SelectionSet = append(c.SelectionSet, &fr)
+		default:
+			c.SelectionSet = append(c.SelectionSet, x)
+		}
+	}
+	return &c
+}
+
+// mutateLastLeaf follows the last selection downwards (fields only) and swaps the leaf it
+// ends in (id -> first other argument-free scalar of the type, anything else -> id), or
+// drops it when the enclosing selection keeps at least one other entry.
+func mutateLastLeaf(s *ast.Schema, t *ast.Definition, ss *ast.SelectionSet, drop bool) bool {
+	for {
+		if t == nil || len(*ss) == 0 {
+			return false
+		}
+		last, ok := (*ss)[len(*ss)-1].(*ast.Field)
+		if !ok {
+			return false
+		}
+		if len(last.SelectionSet) > 0 {
+			fd := t.Fields.ForName(last.Name)
+			if fd == nil {
+				return false
+			}
+			t = s.Types[fd.Type.Name()]
+			ss = &last.SelectionSet
+			continue
+		}
+		if drop {
+			if len(*ss) < 2 {
+				return false
+			}
+			*ss = (*ss)[:len(*ss)-1]
+			return true
+		}
+		have := map[string]bool{}
+		for _, x := range *ss {
+			if xf, is := x.(*ast.Field); is {
+				have[xf.Name] = true
+			}
+		}
+		if last.Name != "id" {
+			if t.Fields.ForName("id") == nil || have["id"] {
+				return false
+			}
+			*last = ast.Field{Name: "id", Alias: "id"}
+			return true
+		}
+		for _, o := range t.Fields {
+			od := s.Types[o.Type.Name()]
+			if o.Name == "id" || o.Name[0] == '_' || have[o.Name] || od == nil || (od.Kind != ast.Scalar && od.Kind != ast.Enum) {
+				continue
+			}
+			req := false
+			for _, a := range o.Arguments {
+				if a.Type.NonNull && a.DefaultValue == nil {
+					req = true
+				}
+			}
+			if req {
+				continue
+			}
+			*last = ast.Field{Name: o.Name, Alias: o.Name}
+			return true
+		}
+		return false
+	}
 }
 
 // wrapNext makes appendSibling put the copy inside an untyped inline fragment.
